@@ -1,0 +1,99 @@
+//go:build verif
+
+package errbase
+
+import "sort"
+
+// This file is only compiled with the "verif" build tag. It gives the
+// verification harness read access to the process-global registries and
+// lets it simulate processes that know fewer error types, or that were
+// built with another set of type migrations. It adds code only; nothing
+// in the library calls it.
+
+// VerifRegistryKeys lists the keys present in each registry.
+func VerifRegistryKeys() map[string][]string {
+	out := map[string][]string{}
+	add := func(name string, keys []string) {
+		sort.Strings(keys)
+		out[name] = keys
+	}
+	var ks []string
+	for k := range leafEncoders {
+		ks = append(ks, string(k))
+	}
+	add("leafEncoders", ks)
+	ks = nil
+	for k := range encoders {
+		ks = append(ks, string(k))
+	}
+	add("encoders", ks)
+	ks = nil
+	for k := range leafDecoders {
+		ks = append(ks, string(k))
+	}
+	add("leafDecoders", ks)
+	ks = nil
+	for k := range decoders {
+		ks = append(ks, string(k))
+	}
+	add("decoders", ks)
+	ks = nil
+	for k := range multiCauseDecoders {
+		ks = append(ks, string(k))
+	}
+	add("multiCauseDecoders", ks)
+	return out
+}
+
+// VerifForgetDecoders removes the decoders registered under the given
+// keys and returns a function that puts them back.
+func VerifForgetDecoders(keys []TypeKey) (restore func()) {
+	savedLeaf := map[TypeKey]LeafDecoder{}
+	savedWrap := map[TypeKey]WrapperDecoder{}
+	savedMulti := map[TypeKey]MultiCauseDecoder{}
+	for _, k := range keys {
+		if d, ok := leafDecoders[k]; ok {
+			savedLeaf[k] = d
+			delete(leafDecoders, k)
+		}
+		if d, ok := decoders[k]; ok {
+			savedWrap[k] = d
+			delete(decoders, k)
+		}
+		if d, ok := multiCauseDecoders[k]; ok {
+			savedMulti[k] = d
+			delete(multiCauseDecoders, k)
+		}
+	}
+	return func() {
+		for k, d := range savedLeaf {
+			leafDecoders[k] = d
+		}
+		for k, d := range savedWrap {
+			decoders[k] = d
+		}
+		for k, d := range savedMulti {
+			multiCauseDecoders[k] = d
+		}
+	}
+}
+
+// VerifMigrations returns a copy of the backward migration table.
+func VerifMigrations() map[TypeKey]TypeKey {
+	out := make(map[TypeKey]TypeKey, len(backwardRegistry))
+	for k, v := range backwardRegistry {
+		out[k] = v
+	}
+	return out
+}
+
+// VerifSetMigrations installs a copy of the given migration table and
+// returns a function that restores the previous one.
+func VerifSetMigrations(m map[TypeKey]TypeKey) (restore func()) {
+	save := backwardRegistry
+	backwardRegistry = make(map[TypeKey]TypeKey, len(m))
+	for k, v := range m {
+		backwardRegistry[k] = v
+	}
+	return func() { backwardRegistry = save }
+}
